@@ -284,5 +284,11 @@ m("C15", "C15-hex-of-negative-signed", "R15-flags:LNumber.Format:%x:unsigned-con
 m("C15", "C15-inf-through-fmt", "R15-flags:LNumber.Format:%f:non-finite-not-through-fmt", ("value.go", "\t\tif v := float64(nm); math.IsInf(v, 0) || math.IsNaN(v) {", "\t\tif v := float64(nm); math.IsNaN(v) {"))
 m("C15", "C15-percent-s-through-fmt", "R15-flags:defaultFormat:%s-of-a-string-pads-by-bytes", ("utils.go", "\tif s, ok := v.(string); ok && c == 's' {", "\tif s, ok := v.(string); ok && c == 's' && len(s) == 0 {"))
 m("C15", "C15-format-missing-argument", "R15-flags:strFormat:directive-without-argument-raises", ("stringlib.go", "\tif npat > len(args) {\n\t\tL.ArgError(top+1, \"no value\")\n\t}\n", ""))
+
+m("C14", "C14-range-from-parsed-classes", "R14-index:rangeClass:ends-are-plain-characters", ("pm/pm.go", "\t\tcase p+2 < ec && src[p+1] == '-':\n\t\t\tset.Classes = append(set.Classes, &rangeClass{&charClass{int(ch)}, &charClass{int(src[p+2])}})\n\t\t\tp += 3\n", "\t\tcase p+2 < ec && src[p+1] == '-' && len(set.Classes) > 0:\n\t\t\tlast := set.Classes[len(set.Classes)-1]\n\t\t\tset.Classes[len(set.Classes)-1] = &rangeClass{last, &charClass{int(src[p+2])}}\n\t\t\tp += 3\n"))
+m("C14", "C14-open-backref-not-marked", "R14-index:compilePattern:marks-reference-to-open-capture", ("pm/pm.go", "\t\tif ptr.open[pat.N*2] {\n\t\t\tunfinished = 1\n\t\t}\n", ""))
+m("C14", "C14-open-backref-mark-ignored", "R14-index:recursiveVM:reference-to-open-capture-raises", ("pm/pm.go", "\t\tif idx >= m.CaptureLength()-1 || inst.Operand2 == 1 {", "\t\tif idx >= m.CaptureLength()-1 {"))
+
+m("C14", "C14-backref-guard-off-by-one-unmarked", "R14-index:recursiveVM:Capture#2", ("pm/pm.go", "\t\tif idx >= m.CaptureLength()-1 || inst.Operand2 == 1 {", "\t\tif idx >= m.CaptureLength() {"))
 if __name__ == "__main__":
     main()
